@@ -599,6 +599,152 @@ theorem flush_before_timeout_mixture :
 /-- FIXED: `Flush` waits for `tw.mu` — while the timeout branch is writing, the handler's Flush is not enabled -/
 example : runLabels [82, 84] (St.init [.write [97], .flush]) [.h, .env .deadline, .mTimeout, .h] = none := by decide
 
+/-! ### the panic path -/
+
+/-- the timeout branch has been taken -/
+def TimeoutTaken (s : St) : Prop :=
+  match s.pc with
+  | .t1 _ => True
+  | .t2 _ => True
+  | .t3 _ => True
+  | .retTimeout _ => True
+  | _ => False
+
+/-- the select's panic branch is enabled exactly when ServeHTTP still sits in its select and the handler's goroutine
+has panicked (its recover put the value into `panicChan`); taking it re-raises that value. -/
+theorem panic_branch_enabled_iff (reason : List Nat) (s : St) :
+    ((∃ s', step reason s .mPanic = some s') ↔ (s.pc = .select ∧ ∃ v, s.panicChan = some v)) ∧
+    (∀ s', step reason s .mPanic = some s' → ∃ v, s.panicChan = some v ∧ s'.pc = .panicked v ∧ s'.w = s.w) := by
+  constructor
+  · constructor
+    · rintro ⟨s', h⟩
+      simp only [step] at h
+      split at h
+      · rename_i v hpc hp; exact ⟨hpc, v, hp⟩
+      · cases h
+    · rintro ⟨hpc, v, hp⟩
+      exact ⟨{ s with pc := .panicked v, panicChan := none }, by simp [step, hpc, hp]⟩
+  · intro s' h
+    simp only [step] at h
+    split at h
+    · rename_i v hpc hp; cases h; exact ⟨v, hp, rfl, rfl⟩
+    · cases h
+
+/-- **Once the timeout branch is taken the panic is never re-raised**: whatever happens afterwards — in particular a
+handler that panics after (or while) the 503/499 is written, http.ErrAbortHandler included — ServeHTTP does not
+panic; the value stays in the buffered `panicChan` (the handler's goroutine ends, nothing leaks). -/
+theorem timeout_taken_never_reraises (reason : List Nat) (s : St) (ht : TimeoutTaken s) (ls : List Label) (s' : St)
+    (hrun : runLabels reason s ls = some s') : TimeoutTaken s' ∧ ∀ v, s'.pc ≠ .panicked v := by
+  induction ls generalizing s with
+  | nil =>
+    simp [runLabels] at hrun; subst hrun
+    refine ⟨ht, ?_⟩
+    intro v hv; unfold TimeoutTaken at ht; rw [hv] at ht; exact ht
+  | cons l ls ih =>
+    simp only [runLabels] at hrun
+    split at hrun
+    · rename_i s1 hs
+      refine ih s1 ?_ hrun
+      cases l with
+      | h =>
+        have := response_all_or_nothing.hstep_pc hs
+        unfold TimeoutTaken at *; rw [this]; exact ht
+      | env k => simp only [step] at hs; split at hs <;> cases hs; exact ht
+      | mPanic => unfold TimeoutTaken at ht; simp only [step] at hs; split at hs <;> simp_all
+      | mDone => unfold TimeoutTaken at ht; simp only [step] at hs; split at hs <;> simp_all
+      | mTimeout => unfold TimeoutTaken at ht; simp only [step] at hs; split at hs <;> simp_all
+      | mAdv =>
+        simp only [step] at hs
+        split at hs <;> (try cases hs) <;> simp_all [TimeoutTaken]
+    · cases hrun
+
+/-- **The re-raised panic is the handler goroutine's own.**  For every script (with or without `Flush`) and every
+schedule: if ServeHTTP panics with `v`, the handler's goroutine has ended by a panic and `v` is the value it panicked
+with (the last handler-visible result), and the timeout branch was not taken. -/
+theorem reraised_panic_is_handlers (reason : List Nat) (script : List Act) (s : St) (hr : Reachable reason script s) :
+    (∀ v, s.panicChan = some v → s.hst = .panicked ∧ s.log.getLast? = some (.panicked v)) ∧
+    (∀ v, s.pc = .panicked v → s.hst = .panicked ∧ s.log.getLast? = some (.panicked v) ∧ ¬ TimeoutTaken s) := by
+  induction hr with
+  | init => simp [St.init]
+  | step l hprev hs ih =>
+    rename_i s0 s1
+    obtain ⟨ih1, ih2⟩ := ih
+    cases l with
+    | h =>
+      have hpc := response_all_or_nothing.hstep_pc hs
+      simp only [step, hstep] at hs
+      have hrun : s0.hst = .running := by
+        cases hh : s0.hst <;> simp [hh] at hs; rfl
+      have hno : s0.panicChan = none := by
+        cases hp : s0.panicChan with
+        | none => rfl
+        | some v => have := (ih1 v hp).1; rw [hrun] at this; cases this
+      have hnp : ∀ v, s0.pc ≠ .panicked v := by
+        intro v hv; have := (ih2 v hv).1; rw [hrun] at this; cases this
+      refine ⟨?_, fun v hv => absurd (hpc ▸ hv) (hnp v)⟩
+      simp only [hrun] at hs
+      split at hs
+      · cases hs; intro v hv; simp [hno] at hv
+      · split at hs
+        · cases hs
+        · split at hs <;> (cases hs; intro v hv; simp [hno] at hv)
+      · cases hs; intro v hv; simp [hno] at hv
+      · cases hs; intro v hv; simp at hv; subst hv; simp
+      · split at hs
+        · cases hs
+        · cases hs; unfold lockedAct; split
+          · intro v hv; simp at hv; subst hv; simp
+          · intro v hv; simp [hno] at hv
+      · split at hs
+        · cases hs
+        · cases hs; unfold lockedAct; split
+          · intro v hv; simp at hv; subst hv; simp
+          · intro v hv; simp [hno] at hv
+    | env k =>
+      simp only [step] at hs; split at hs <;> cases hs
+      exact ⟨ih1, ih2⟩
+    | mPanic =>
+      simp only [step] at hs
+      split at hs
+      · rename_i v hpc hp
+        cases hs
+        refine ⟨(by intro v' hv'; cases hv'), ?_⟩
+        intro v' hv'
+        simp at hv'; subst hv'
+        exact ⟨(ih1 _ hp).1, (ih1 _ hp).2, by simp [TimeoutTaken]⟩
+      · cases hs
+    | mDone =>
+      simp only [step] at hs
+      split at hs
+      · split at hs
+        · cases hs; exact ⟨ih1, by intro v hv; cases hv⟩
+        · cases hs
+      · cases hs
+    | mTimeout =>
+      simp only [step] at hs
+      split at hs
+      · cases hs; exact ⟨ih1, by intro v hv; cases hv⟩
+      · cases hs
+    | mAdv =>
+      simp only [step] at hs
+      split at hs <;> (try cases hs) <;> exact ⟨ih1, by intro v hv; cases hv⟩
+
+/-- the handler panics with 7 before the deadline: re-raised, nothing written; the same panic after the timeout branch
+was taken: swallowed, the client has the pure 503 -/
+example :
+    (runLabels [82, 84] (St.init [.write [97], .panic 7]) [.h, .h, .mPanic]).map (fun s => (s.pc, s.w.view)) =
+      some (.panicked 7, (200, [], [])) := by decide
+example :
+    (runLabels [82, 84] (St.init [.write [97], .panic 7]) [.h, .env .deadline, .mTimeout, .h, .mAdv, .mAdv, .mAdv]).map
+      (fun s => (s.pc, s.w.view)) = some (.retTimeout .deadline, (503, [], [82, 84])) := by decide
+example :
+    (runLabels [82, 84] (St.init [.write [97], .panic 7]) [.h, .env .deadline, .mTimeout, .h, .mAdv, .mAdv, .mAdv]).map
+      (fun s => s.panicChan) = some (some 7) := by decide
+/-- both ready: the select may also take the timeout branch although the handler has already panicked -/
+example :
+    (runLabels [82, 84] (St.init [.panic 7]) [.h, .env .canceled, .mTimeout, .mAdv, .mAdv, .mAdv]).map
+      (fun s => (s.pc, s.w.view)) = some (.retTimeout .canceled, (499, [], [82, 84])) := by decide
+
 /-! ### `Hijack` -/
 
 /-- FIXED (fixes/C04-hijack-after-timeout.patch): once the timeout branch has set `timedOut`, `Hijack` never hands the
